@@ -24,15 +24,20 @@ fn st(s: cb::State) -> St {
 }
 
 type Log = Arc<Mutex<Vec<(String, St, St)>>>;
+/// clock reading (ms) of every announced transition, parallel to the log of its `Rec`
+static TIMES: Mutex<Vec<u64>> = Mutex::new(Vec::new());
 struct Rec(Log);
 impl cb::StateChangeListener for Rec {
     fn on_transform_to_closed(&self, p: cb::State, r: Arc<cb::Rule>) {
+        TIMES.lock().unwrap_or_else(|e| e.into_inner()).push(clock::get_ms());
         self.0.lock().unwrap().push((r.id.clone(), st(p), St::Closed));
     }
     fn on_transform_to_open(&self, p: cb::State, r: Arc<cb::Rule>, _s: Option<Arc<sentinel_core::base::Snapshot>>) {
+        TIMES.lock().unwrap_or_else(|e| e.into_inner()).push(clock::get_ms());
         self.0.lock().unwrap().push((r.id.clone(), st(p), St::Open));
     }
     fn on_transform_to_half_open(&self, p: cb::State, r: Arc<cb::Rule>) {
+        TIMES.lock().unwrap_or_else(|e| e.into_inner()).push(clock::get_ms());
         self.0.lock().unwrap().push((r.id.clone(), st(p), St::HalfOpen));
     }
 }
@@ -56,9 +61,31 @@ fn fail(e: &EntryStrongPtr) {
 /// announced once, and the breaker's current state must be the end of that path.
 fn check_paths(log: &Log, from: St) -> Vec<(String, St)> {
     let log = log.lock().unwrap().clone();
+    let times = TIMES.lock().unwrap_or_else(|e| e.into_inner()).clone();
     let mut ends = vec![];
     for b in cb::get_breakers_of_resource(&RES.to_string()) {
         let id = b.bound_rule().id.clone();
+        // a probe is elected only once the retry timeout of the CURRENT Open period has elapsed
+        if times.len() == log.len() {
+            let mut opened_at: Option<u64> = None;
+            for (k, (rid, _, n)) in log.iter().enumerate() {
+                if rid != &id {
+                    continue;
+                }
+                match n {
+                    St::Open => opened_at = Some(times[k]),
+                    St::HalfOpen => {
+                        if let Some(t0) = opened_at {
+                            let retry = b.bound_rule().retry_timeout_ms as u64;
+                            if times[k] < t0 + retry {
+                                panic!("ORACLE: early-probe: breaker {} went Open->HalfOpen at +{} ms although it (re-)opened at +{} ms and the retry timeout is {} ms; log {:?}", rid, times[k] - T0_MS, t0 - T0_MS, retry, log);
+                            }
+                        }
+                    }
+                    St::Closed => opened_at = None,
+                }
+            }
+        }
         let mut cur = from;
         for (rid, p, n) in log.iter().filter(|e| e.0 == id) {
             if *p != cur {
@@ -82,6 +109,7 @@ fn check_paths(log: &Log, from: St) -> Vec<(String, St)> {
 fn setup(strats: &[cb::BreakerStrategy]) -> Log {
     clock::set_ms(T0_MS + 250);
     let log: Log = Arc::new(Mutex::new(vec![]));
+    TIMES.lock().unwrap_or_else(|e| e.into_inner()).clear();
     cb::register_state_change_listeners(vec![Arc::new(Rec(log.clone()))]);
     cb::load_rules(strats.iter().enumerate().map(|(i, s)| rule(&format!("b{}", i), *s)).collect());
     log
@@ -268,6 +296,35 @@ fn blocked_probe_race(strategy: cb::BreakerStrategy, stale_ok: bool, second_requ
     })
 }
 
+/// (f) requests arriving after the retry timeout whose probes FAIL at once: the breaker re-opens
+/// with a new deadline, and a request that had already read "Open, timeout elapsed" must not be
+/// elected as a second probe of the new Open period
+fn failing_probes(strategy: cb::BreakerStrategy, n: usize) -> Body {
+    Arc::new(move || {
+        let log = setup(&[strategy]);
+        open_all();
+        clock::advance_ms(100);
+        let mut hs = vec![];
+        for _ in 0..n {
+            hs.push(shuttle::thread::spawn(move || match build() {
+                Ok(e) => {
+                    fail(&e);
+                    1
+                }
+                Err(_) => 0,
+            }));
+        }
+        let passed: usize = hs.into_iter().map(|h| h.join().unwrap()).sum();
+        let ends = check_paths(&log, St::Closed);
+        let l = log.lock().unwrap().clone();
+        if passed != 1 {
+            panic!("ORACLE: one-probe: {} requests passed after one retry timeout (each probe failed at once, the clock did not move); log {:?}", passed, l);
+        }
+        outcome(format!("end={:?} events={} passed={}", ends[0].1, l.len(), passed));
+        teardown(vec![]);
+    })
+}
+
 pub fn scenarios(thorough: bool) -> Vec<Scenario> {
     use cb::BreakerStrategy::*;
     let mut v = vec![];
@@ -285,6 +342,12 @@ pub fn scenarios(thorough: bool) -> Vec<Scenario> {
             v.push(Scenario { name: format!("open->halfopen:{:?}:3-requests", s), bound: 2, cap: 0, body: open_to_half_open(vec![s], 3, false) });
             v.push(Scenario { name: format!("halfopen:{:?}:probe-fail||request||stale", s), bound: 2, cap: 0, body: half_open_race(s, true, true, false) });
         }
+    }
+    // probes that fail at once: no second probe in the new Open period
+    v.push(Scenario { name: "open->halfopen:ErrorCount:2-requests-failing-at-once".into(), bound: b2, cap: 0, body: failing_probes(ErrorCount, 2) });
+    if thorough {
+        v.push(Scenario { name: "open->halfopen:ErrorRatio:2-requests-failing-at-once".into(), bound: 3, cap: 0, body: failing_probes(ErrorRatio, 2) });
+        v.push(Scenario { name: "open->halfopen:ErrorCount:3-requests-failing-at-once".into(), bound: 2, cap: 0, body: failing_probes(ErrorCount, 3) });
     }
     // a probe rejected by another rule, racing with a stale completion
     for s in [ErrorCount, SlowRequestRatio] {
